@@ -183,6 +183,21 @@ def check_cases(ctx, srcs):
             ext = ("err", impl.classify_exc(e), None)
             if not odd:
                 ctx.violate({"src": src}, f"extract_metadata raised {type(e).__name__}: {e}")
+        # the same query with ONE node object standing in two places (Concat(x, x), as ObjectStream queries share sub-trees):
+        # every wrapper of every occurrence is reported, as for the tree built from separate nodes (wave-9 audit, C15 d2)
+        if nw > 0 and not odd and ctx.rng.random() < 0.4:
+            shared = copy.deepcopy(a)
+            twice = ast.Call(func=ast.Name("Concat", ast.Load()), args=[shared, shared], keywords=[])
+            fresh = ast.Call(func=ast.Name("Concat", ast.Load()), args=[copy.deepcopy(a), copy.deepcopy(a)], keywords=[])
+            try:
+                w_tree, w_md = extract_metadata(fresh)
+                g_tree, g_md = extract_metadata(twice)
+                ctx.dist["extract_metadata on a tree with a shared node object"] += 1
+                if ast.dump(g_tree) != ast.dump(w_tree) or not same_value(list(g_md), list(w_md)):
+                    ctx.violate({"src": src, "shape": "Concat(x, x) with x one node object", "got": repr(g_md)[:200], "want": repr(w_md)[:200]},
+                                "extract_metadata: a node object that stands in two places hides the dictionaries of its second occurrence")
+            except Exception as e:
+                ctx.violate({"src": src}, f"extract_metadata raised {type(e).__name__} on a tree with a shared node object")
         # ---- remove_empty_metadata
         arg = copy.deepcopy(a)
         marked = [n for n in ast.walk(arg) if isinstance(n, ast.Name) and n.id == "ds"]
